@@ -1,6 +1,7 @@
 import OpacusLean.Lemmas.ClipStep
 import OpacusLean.Lemmas.ClipExec
 import OpacusLean.Generated.OptimizerTable
+import OpacusLean.Generated.ReleaseArith
 /-! # C03 — a DP step hands the inner optimizer (Σ_i min(1, C/(‖g_i‖+1e-6))·g_i + z)/B -/
 namespace Opacus.C03
 open Opacus.Clip Opacus.Ghost Opacus.Step
@@ -242,5 +243,42 @@ theorem ebs_floor_or_one_less_box :
     (List.range 101).all (fun N => [1, 2, 3, 4, 5, 6, 7, 8, 9, 10, 11, 12, 49].all fun L =>
       ebsExact N L = N / L ∨ ebsExact N L + 1 = N / L) = true := by
   decide +kernel
+
+
+/-! ## The tie to the source: the release arithmetic re-translated on every run (`Generated/ReleaseArith.lean`) -/
+
+/-- closes `generated = model` over ℝ up to operand order and association -/
+macro "rel_close" : tactic =>
+  `(tactic| first | rfl | (ring_nf; done) | (simp only []; ring_nf; done) | (norm_num; ring_nf))
+
+/-- the noised sum and the divisors as written in `DPOptimizer.add_noise` / `scale_grad`, the distributed per-layer
+optimizer's `_add_noise_parameter` / `_scale_grad_parameter` and the two distributed `reduce_gradients` are `s + z`,
+`E·k`, `E·k·W` and `W` -/
+theorem generated_release_arith_eq_model (s z E k W : ℝ) :
+    Opacus.Generated.Release.flatNoised s z = s + z ∧
+    Opacus.Generated.Release.ddpPerLayerNoised s z = s + z ∧
+    Opacus.Generated.Release.flatScale E k = E * k ∧
+    Opacus.Generated.Release.ddpPerLayerScale E k W = E * k * W ∧
+    Opacus.Generated.Release.ddpReduce W = W ∧
+    Opacus.Generated.Release.ddpGhostReduce W = W := by
+  refine ⟨?_, ?_, ?_, ?_, ?_, ?_⟩
+  · unfold Opacus.Generated.Release.flatNoised; rel_close
+  · unfold Opacus.Generated.Release.ddpPerLayerNoised; rel_close
+  · unfold Opacus.Generated.Release.flatScale; rel_close
+  · unfold Opacus.Generated.Release.ddpPerLayerScale; rel_close
+  · unfold Opacus.Generated.Release.ddpReduce; rel_close
+  · unfold Opacus.Generated.Release.ddpGhostReduce; rel_close
+
+/-- entry by entry, the model's `release` (what `release_formula` is about) is the generated arithmetic:
+`(summed + z) / (E·k)` for mean-reduced losses, `summed + z` for sum-reduced ones -/
+theorem generated_release_pointwise (m : Mode ℝ P) (E k : Nat) (summed z : Grad ℝ d) (i : Fin P) (j : Fin (d i)) :
+    release (rc d m) .mean E k summed z i j
+      = Opacus.Generated.Release.flatNoised (summed i j) (z i j) / Opacus.Generated.Release.flatScale (E : ℝ) (k : ℝ) ∧
+    release (rc d m) .sum E k summed z i j = Opacus.Generated.Release.flatNoised (summed i j) (z i j) := by
+  obtain ⟨h1, _, h3, _⟩ := generated_release_arith_eq_model (summed i j) (z i j) (E : ℝ) (k : ℝ) 0
+  rw [h1, h3]
+  constructor
+  · simp [release, rc, modelCarrier, gdiv, gadd]
+  · simp [release, rc, modelCarrier, gadd]
 
 end Opacus.C03
